@@ -84,6 +84,16 @@ VALID_BASE = {
 
 
 def enumerate_cases(tier):
+    """Every systematic case of a high-level method once per device."""
+    for case in _enumerate_cases(tier):
+        if case["method"] in ("aspirate", "dispense", "transfer", "distribute"):
+            yield dict(case, device="evo")
+            yield dict(case, device="fluent")
+        else:
+            yield case
+
+
+def _enumerate_cases(tier):
     """Systematic one-invalid-field cases: every listed invalid value of every field of every method, all other
     fields valid and non-default (Hypothesis' generation is too clumpy to guarantee each of them)."""
     groups = {
@@ -298,7 +308,13 @@ def check_case(case) -> Obs:
     method = case["method"]
     M = case["M"]
     obs.cls("method:" + method, "stream:" + case["stream"])
-    wl = robotools.EvoWorklist(max_volume=M, diti_mode=case["diti"]) if method in ("aspirate", "dispense", "transfer", "distribute") else robotools.BaseWorklist(max_volume=M, diti_mode=case["diti"])
+    # the high-level methods run on both devices (chosen by a function of the case content, so that it is a pure function of the case)
+    fluent = method in ("aspirate", "dispense", "transfer", "distribute") and (case.get("device") == "fluent" or (case.get("device") is None and len(repr(sorted(case.get("args", {}).items(), key=lambda kv: kv[0]))) % 2 == 1))
+    if method in ("aspirate", "dispense", "transfer", "distribute"):
+        wl = (robotools.FluentWorklist if fluent else robotools.EvoWorklist)(max_volume=M, diti_mode=case["diti"])
+        obs.cls("device:" + ("fluent" if fluent else "evo"))
+    else:
+        wl = robotools.BaseWorklist(max_volume=M, diti_mode=case["diti"])
     wl.extend(case["prefill"])
     before = list(wl)
     args = {k: _val(v) for k, v in case.get("args", {}).items()}
@@ -435,14 +451,14 @@ def check_case(case) -> Obs:
             v = args["volume"]
             if method == "aspirate":
                 call = lambda: wl.aspirate(S, ["B02", "A01"], v, label=args["label"], **kw)  # noqa: E731
-                want = [("A", args["name_src"], 6), ("A", args["name_src"], 1)]
+                want = [("A", args["name_src"], 2 if fluent else 6), ("A", args["name_src"], 1)]
             elif method == "dispense":
                 call = lambda: wl.dispense(D, ["C02", "A12"], v, label=args["label"], **kw)  # noqa: E731
                 want = [("D", args["name_dst"], 11), ("D", args["name_dst"], 89)]
             else:
                 wl.auto_split = False
                 call = lambda: wl.transfer(S, "D01", D, "H12", v, wash_scheme="reuse", label=args["label"], **kw)  # noqa: E731
-                want = [("A", args["name_src"], 4), ("D", args["name_dst"], 96)]
+                want = [("A", args["name_src"], 1 if fluent else 4), ("D", args["name_dst"], 96)]
 
             def checker(new):
                 new = _strip_label(obs, new, args["label"], method)
